@@ -53,7 +53,9 @@ The fragment (static types mirror what `erg --mode typecheck` infers; probed on 
   statements  v = e | v: T = e | print!(e, ...) | assert e | if! c: do!: ... [do!: ...] | for! it, v => ...
               | c = !n ; while! do! c < e, do!: ... ; c.inc!() ; c.update!(a -> a + k)
               | f(a: T, b: T := lit): T = block | p!(a: T) = block | g = (a: T) -> e | p!(args) | (u, v) = (e1, e2)
-              | [u, v] = list
+              | [u, v] = list | nested patterns with discards, depth <= 3, tuple and list patterns mixed:
+                (a, (_, c)) = (1, (2, 3)) ; [p, [_, q, r]] = [[0, 0, 0], [4, 5, 6]]  (level 4; also in function bodies);
+                every bound variable is printed (in a pure function: one of them is the result)
   expressions additionally: if(c, (do: a), (do: b)), f(args, kw := e), len(e), abs(e), l[lit], l + l, [e, ...]
 
   Erg printer rules (so that parsing precedence, property C11, cannot interfere): every non-atomic operand is
@@ -90,6 +92,7 @@ Wire format (tags) — keep in sync with coq/CoreErg/Syntax.v
         (8 id) c.inc!()   (9 id pid e) c.update!(pid -> e)   (10 id isproc ((pid ty (default)?)...) retty (s...)) function/procedure
         (11 id ((pid ty)...) e) lambda definition   (12 kind (id...) e) pattern definition kind 0 tuple, 1 list
         (13 fid (arg...)) procedure call statement
+        (14 pat e) nested pattern definition; pat ::= (0 id) variable | (1) discard `_` | (2 (pat...)) tuple | (3 (pat...)) list
   type codes: 0 None 1 Nat 2 Int 3 Float 4 Str 5 Bool, (6 t) List
 """
 import struct
@@ -101,7 +104,8 @@ TYCODE = {NONE: 0, NAT: 1, INT: 2, FLOAT: 3, STR: 4, BOOL: 5}
 CODETY = {v: k for k, v in TYCODE.items()}
 
 (E_LIT, E_VAR, E_UN, E_BIN, E_CMP, E_LOGIC, E_LIST, E_INDEX, E_IF, E_CALL, E_LEN, E_ABS, E_RANGE, E_TUPLE) = range(14)
-(S_EXPR, S_PRINT, S_ASSERT, S_DEF, S_IF, S_FOR, S_WHILE, S_MUTDEF, S_INC, S_UPDATE, S_FUN, S_LAM, S_PAT, S_PCALL) = range(14)
+(S_EXPR, S_PRINT, S_ASSERT, S_DEF, S_IF, S_FOR, S_WHILE, S_MUTDEF, S_INC, S_UPDATE, S_FUN, S_LAM, S_PAT, S_PCALL, S_NPAT) = range(15)
+(P_VAR, P_DISCARD, P_TUPLE, P_LIST) = range(4)
 (L_NAT, L_NEG, L_FLOAT, L_STR, L_BOOL, L_NONE) = range(6)
 UN_NEG, UN_POS, UN_NOT, UN_INV = range(4)
 ARITH = ["+", "-", "*", "/", "//", "%", "**"]
@@ -738,6 +742,13 @@ class Gen:
                     body.append(self.s_def())
             ret = self.scalar_ty()
             e = self.expr(ret, 2)
+            if self.level >= 4 and r.random() < 0.3:
+                # a nested pattern inside the function body; one of its scalar variables is the result
+                st, ids = self.s_npat()
+                scal = [i for i in ids if not is_list(self.info[i].ty)]
+                if scal:
+                    body.append(st)
+                    e = self.var(r.choice(scal))
             body.append(St(S_EXPR, [e]))
             ret = e.ty
         self.scope = outer_scope
@@ -787,6 +798,64 @@ class Gen:
             self.bind(i)
         return St(S_PAT, [1, ids, e])
 
+    def npat(self, depth, kind=None):
+        """(pattern, value expression, [bound ids]) : a nested pattern with `_` discards at any position and a literal
+        value of the same shape.  Tuple patterns take scalars, tuples and lists; a list pattern is homogeneous: scalars of
+        one type, or lists of equal length of one scalar type (then an element is a variable bound to the inner list, a
+        discard or a nested list pattern)."""
+        r = self.rng
+        kind = kind or r.choice([P_TUPLE, P_LIST])
+        n = r.randint(2, 3)
+        pats, vals, ids = [], [], []
+
+        def leaf(ty, val):
+            if r.random() < 0.4:
+                return [P_DISCARD]
+            i = self.fresh(Info("var", ty))
+            self.no_singleton.add(i)
+            self.free_vars.add(i)
+            ids.append(i)
+            return [P_VAR, i]
+        if kind == P_TUPLE:
+            for _ in range(n):
+                k = r.random()
+                if depth > 1 and k < 0.45:
+                    q, v, sub = self.npat(depth - 1)
+                    pats.append(q); vals.append(v); ids += sub
+                else:
+                    ty = r.choice([NAT, INT, FLOAT, STR, BOOL])
+                    v = self.lit(ty)
+                    pats.append(leaf(v.ty, v)); vals.append(v)
+            return [P_TUPLE, pats], Ex(E_TUPLE, [vals], None, w=0), ids
+        ety = r.choice([NAT, INT, FLOAT, STR])
+        if depth > 1 and r.random() < 0.5:
+            m = r.randint(2, 3)
+            for _ in range(n):
+                inner = self.lit(TList(ety, m))
+                if r.random() < 0.5:
+                    sub_p, sub_ids = [], []
+                    for x in inner.args[0]:
+                        sub_p.append(leaf(ety, x))
+                    pats.append([P_LIST, sub_p])
+                else:
+                    pats.append(leaf(TList(ety, m), inner))
+                vals.append(inner)
+            return [P_LIST, pats], Ex(E_LIST, [vals], TList(TList(ety, m), n)), ids
+        for _ in range(n):
+            v = self.lit(ety)
+            pats.append(leaf(ety, v)); vals.append(v)
+        return [P_LIST, pats], Ex(E_LIST, [vals], TList(ety, n)), ids
+
+    def s_npat(self):
+        for _ in range(20):
+            mark = self.next_id
+            p, v, ids = self.npat(self.rng.randint(2, 3))
+            if ids:
+                break
+        for i in ids:
+            self.bind(i)
+        return St(S_NPAT, [p, v]), ids
+
     def s_pcall(self):
         ps = self.funs_ret(None, proc=True)
         inf = self.info[self.rng.choice(ps)]
@@ -833,6 +902,9 @@ class Gen:
             return [self.s_lam()]
         if k == "pat":
             # the bound variables are printed: otherwise a wrong destructuring would go unobserved (found by mutation testing)
+            if self.rng.random() < 0.5:
+                st, ids = self.s_npat()
+                return [st, St(S_PRINT, [[self.var(i) for i in ids]])]
             st = self.s_pat()
             return [st, St(S_PRINT, [[self.var(i) for i in st.args[1]]])]
         if k == "pcall":
@@ -1010,6 +1082,32 @@ def proc_ids(prog):
     return out
 
 
+def erg_pat(p, names):
+    if p[0] == P_VAR:
+        return names(p[1])
+    if p[0] == P_DISCARD:
+        return "_"
+    inner = ", ".join(erg_pat(q, names) for q in p[1])
+    return "(%s)" % inner if p[0] == P_TUPLE else "[%s]" % inner
+
+
+def py_pat(p):
+    if p[0] == P_VAR:
+        return "v%d" % p[1]
+    if p[0] == P_DISCARD:
+        return "_"
+    inner = ", ".join(py_pat(q) for q in p[1])
+    return "(%s,)" % inner if p[0] == P_TUPLE else "[%s]" % inner
+
+
+def pat_ids(p):
+    if p[0] == P_VAR:
+        return [p[1]]
+    if p[0] == P_DISCARD:
+        return []
+    return [i for q in p[1] for i in pat_ids(q)]
+
+
 def to_erg(prog):
     procs = proc_ids(prog)
 
@@ -1070,6 +1168,8 @@ def to_erg(prog):
             lines.append(p + ("(%s) = %s" if a[0] == 0 else "[%s] = %s") % (ids, erg_expr(a[2], names)))
         elif t == S_PCALL:
             lines.append(p + "%s(%s)" % (names(a[0]), ", ".join(erg_expr(x, names) for x in a[1])))
+        elif t == S_NPAT:
+            lines.append(p + "%s = %s" % (erg_pat(a[0], names), erg_expr(a[1], names)))
         else:
             raise ValueError(t)
     blk(prog, 0)
@@ -1178,6 +1278,8 @@ def to_python(prog):
             lines.append(p + ("(%s,) = %s" if a[0] == 0 else "[%s] = %s") % (ids, py_expr(a[2])))
         elif t == S_PCALL:
             lines.append(p + "v%d(%s)" % (a[0], ", ".join(py_expr(x) for x in a[1])))
+        elif t == S_NPAT:
+            lines.append(p + "%s = %s" % (py_pat(a[0]), py_expr(a[1])))
         else:
             raise ValueError(t)
     blk(prog, 0)
@@ -1239,6 +1341,8 @@ def sx_stmt(s):
         return [t, a[0], list(a[1]), sx_expr(a[2])]
     if t == S_PCALL:
         return [t, a[0], [sx_expr(x) for x in a[1]]]
+    if t == S_NPAT:
+        return [t, clone(a[0]), sx_expr(a[1])]
     raise ValueError(t)
 
 
@@ -1304,6 +1408,8 @@ def st_from_sx(x):
         return St(t, [a[0], list(a[1]), ex_from_sx(a[2])])
     if t == S_PCALL:
         return St(t, [a[0], [ex_from_sx(y) for y in a[1]]])
+    if t == S_NPAT:
+        return St(t, [clone(a[0]), ex_from_sx(a[1])])
     raise ValueError(t)
 
 
@@ -1396,7 +1502,9 @@ def features(prog):
     def ws(ss):
         for s in ss:
             out.add("stmt:" + ["expr", "print", "assert", "def", "if!", "for!", "while!", "mutdef", "inc!", "update!", "fun", "lambda",
-                               "pattern", "proc-call"][s.tag])
+                               "pattern", "proc-call", "nested-pattern"][s.tag])
+            if s.tag == S_NPAT and "[1]" in repr(s.args[0]):
+                out.add("pattern:discard")
             if s.tag == S_FUN and s.args[1]:
                 out.add("stmt:proc")
             for x in s.args:
